@@ -38,7 +38,7 @@ ASSUMPTIONS = [
     "a front-end crash or error exit is an outcome and is compared like any other",
 ]
 PROBES = ["nonempty_tables", "hashseed_varied", "dirent_varied", "heap_varied", "clock_varied", "env_varied", "env_ascii_locale", "install_via_symlink", "concurrent_process", "concurrent_context_switches", "stdout_reader_gone", "c_header_preprocessing", "optional_packages_hidden", "small_machine", "big_project", "legacy_encoded_source", "ws_sibling", "ws_otherfs", "ws_relative", "ws_symlink",
-          "cwd_varied", "pyopt_varied", "ws_symlink_inner", "ws_named_externs", "ws_named_src", "ws_named_default", "ws_named_glob", "ws_named_braces", "ws_symlink_sub", "history_other_settings",
+          "cwd_varied", "pyopt_varied", "ws_symlink_inner", "ws_named_externs", "ws_named_src", "ws_named_default", "ws_named_glob", "ws_named_braces", "ws_named_unit", "ws_symlink_sub", "history_other_settings",
           "history_same_project", "history_other_project", "history_crashed_run", "multi_file_project", "corpus_project",
           "generated_project", "sub_run", "sub_semantic", "taint_phase_ran", "baseline_completed", "baseline_ended_early", "not_quiet", "taint_report_written"]
 # the same check again, smaller, in interpreters started with assertions stripped (python -O / PYTHONOPTIMIZE=1)
@@ -125,7 +125,7 @@ SIMULATED_TIME = ("lian has no timers and, on the pinned tree, reads no clock; t
                   "extra.clock_reads_under_simulated_clock / extra.simulated_clock_seconds say how often it was read and how much simulated "
                   "time passed in those runs")
 STRATIFY = True
-WS_KINDS = ["sibling", "otherfs", "relative", "symlink", "symlink_inner", "named_externs", "named_src", "named_default", "named_glob", "symlink_sub", "named_braces"]
+WS_KINDS = ["sibling", "otherfs", "relative", "symlink", "symlink_inner", "named_externs", "named_src", "named_default", "named_glob", "symlink_sub", "named_braces", "named_unit"]
 ENV_SETS = [{"TZ": "Asia/Tokyo"}, {"TZ": "America/St_Johns", "COLUMNS": "40", "LINES": "10", "TERM": "dumb", "NO_COLOR": "1"},
             {"LC_ALL": "C", "LANG": "C"}, {"LC_ALL": "", "LANG": "", "LC_CTYPE": "C.UTF-8"}, {"PYTHONIOENCODING": "latin-1:replace"},
             {"_umask": "077"}, {"_umask": "000", "TERM": "xterm-256color", "FORCE_COLOR": "1"}, {"_close_stdin": "1"},
@@ -516,7 +516,8 @@ def execute(trace):
             elif wsk.startswith("named_"):
                 # a location whose path contains a name lian itself uses for something, or characters with a meaning elsewhere
                 w_arg = os.path.join(B, {"named_externs": "externs", "named_src": "src", "named_default": "old_lian_workspace_runs",
-                                         "named_glob": "run[1] *?x", "named_braces": "tmpl_{{cookiecutter.project}}_%s_$HOME"}[wsk], "ws")
+                                         "named_glob": "run[1] *?x", "named_braces": "tmpl_{{cookiecutter.project}}_%s_$HOME",
+                                         "named_unit": "cache_of_main_mod.py.d"}[wsk], "ws")
             else:
                 real = os.path.join(B, "ws_real_target")
                 os.makedirs(real, exist_ok=True)
